@@ -433,7 +433,10 @@ def build_ops(ctx, rng):
 
 def run(ctx):
     rng = vlib.Rng(ctx.seed)
-    ctx.prove(['Librfn.Props.C18'], REQUIRED)
+    import regen
+    for u, e in regen.regen(['Hex']):      # tie T for the pure helpers hexchar / nibble
+        ctx.broken.append(f'tie T: tools/c2lean.py cannot translate unit {u}: {e}')
+    ctx.prove(['Librfn.Props.C18', 'Librfn.Props.C18Tie'], REQUIRED + ['Librfn.C18.hexchar_tie', 'Librfn.C18.nibble_tie'])
     exe = harness(ctx)
     if not ctx.build_model():
         return
